@@ -412,6 +412,34 @@ func (se *shapeEval) intExpr(env *intEnv, e ast.Expr) (Poly, bool) {
 				return nil, false
 			}
 		}
+		if sel, ok := x.Fun.(*ast.SelectorExpr); ok && (sel.Sel.Name == "ByteLength" || sel.Sel.Name == "FixedLength") && env.recv != nil {
+			rx := ast.Unparen(sel.X)
+			if u, ok := rx.(*ast.UnaryExpr); ok && u.Op == token.AND {
+				rx = ast.Unparen(u.X)
+			}
+			// recv.F.ByteLength(…): the length of the receiver's own field F
+			if fsel, ok := rx.(*ast.SelectorExpr); ok && sel.Sel.Name == "ByteLength" {
+				if id, ok := ast.Unparen(fsel.X).(*ast.Ident); ok && info.Uses[id] == env.recv {
+					if s, ok := info.Selections[fsel]; ok && s.Kind() == types.FieldVal {
+						return polyAtom("bl:" + fsel.Sel.Name), true
+					}
+				}
+			}
+			// recv.FixedLength(…) / recv.ByteLength(…): the other length method of the same value
+			if id, ok := rx.(*ast.Ident); ok && info.Uses[id] == env.recv && se.inlining < 3 {
+				if f := calleeFunc(info, x); f != nil {
+					if mi := se.methods[f]; mi != nil && mi.fd.Body != nil {
+						se.inlining++
+						p, form, why := se.lengthOf(mi)
+						se.inlining--
+						if why == "" && form == "expr" {
+							return p, true
+						}
+					}
+				}
+				return nil, false
+			}
+		}
 		// XType.TypeByteLength() / XType.Length() / XType(spec).TypeByteLength()
 		if sel, ok := x.Fun.(*ast.SelectorExpr); ok && len(x.Args) == 0 {
 			switch sel.Sel.Name {
@@ -494,6 +522,10 @@ func (se *shapeEval) intExpr(env *intEnv, e ast.Expr) (Poly, bool) {
 		case token.SHL:
 			if cb, ok := b.isConst(); ok && cb >= 0 && cb < 62 {
 				return polyMul(a, polyConst(1<<uint(cb))), true
+			}
+		case token.SHR:
+			if cb, ok := b.isConst(); ok && cb >= 0 && cb < 62 {
+				return polyDiv(a, polyConst(1<<uint(cb))), true
 			}
 		}
 		return nil, false
@@ -733,20 +765,36 @@ func (se *shapeEval) fieldArgs(mi *methInfo, args []ast.Expr) ([]fieldArg, strin
 		recvObj = info.Defs[mi.fd.Recv.List[0].Names[0]]
 	}
 	var out []fieldArg
+	ldefs := singleDefs(info, mi.fd.Body)
+	// a local that merely names the argument (bits := spec.Wrap(&v.F); f(bits)) is read through, at each layer
+	through := func(e ast.Expr) ast.Expr {
+		for k := 0; k < 3; k++ {
+			id, ok := ast.Unparen(e).(*ast.Ident)
+			if !ok {
+				break
+			}
+			d, ok := ldefs[info.Uses[id]]
+			if !ok || d.pos != 0 || d.n != 1 || d.rhs == nil {
+				break
+			}
+			e = d.rhs
+		}
+		return ast.Unparen(e)
+	}
 	for _, a := range args {
 		fa := fieldArg{idx: -1, expr: a}
-		e := ast.Unparen(a)
+		e := through(a)
 		// spec.Wrap(x)
 		if call, ok := e.(*ast.CallExpr); ok {
 			if f := calleeFunc(info, call); f != nil && f.Name() == "Wrap" && len(call.Args) == 1 && isSpecType(info.TypeOf(call.Fun.(*ast.SelectorExpr).X)) {
 				fa.wrapped = true
-				e = ast.Unparen(call.Args[0])
+				e = through(call.Args[0])
 			}
 		}
 		// conversion (*T)(&v.F) or T(v.F)
 		if call, ok := e.(*ast.CallExpr); ok && isConversion(info, call) && len(call.Args) == 1 {
 			fa.conv = info.TypeOf(call.Fun)
-			e = ast.Unparen(call.Args[0])
+			e = through(call.Args[0])
 		}
 		if ue, ok := e.(*ast.UnaryExpr); ok && ue.Op == token.AND {
 			e = ast.Unparen(ue.X)
@@ -805,6 +853,72 @@ func singleReturnCall(fd *ast.FuncDecl) (*ast.CallExpr, []ast.Stmt) {
 	}
 	call, ok := ast.Unparen(r.Results[0]).(*ast.CallExpr)
 	if !ok {
+		// `return <call>` spelt with the error looked at: if err := <call>; err != nil { return err }; return nil
+		// (or err := <call>; [if err != nil { return err };] return err / nil)
+		n := len(fd.Body.List)
+		isNilId := func(e ast.Expr) bool { id, ok := ast.Unparen(e).(*ast.Ident); return ok && id.Name == "nil" }
+		lastId, _ := ast.Unparen(r.Results[0]).(*ast.Ident)
+		guardOf := func(st ast.Stmt) (init *ast.AssignStmt, errName string, ok bool) {
+			ifs, isIf := st.(*ast.IfStmt)
+			if !isIf || ifs.Else != nil || len(ifs.Body.List) != 1 {
+				return nil, "", false
+			}
+			be, isBe := ast.Unparen(ifs.Cond).(*ast.BinaryExpr)
+			if !isBe || be.Op != token.NEQ {
+				return nil, "", false
+			}
+			var eid *ast.Ident
+			if id, ok := ast.Unparen(be.X).(*ast.Ident); ok && isNilId(be.Y) {
+				eid = id
+			} else if id, ok := ast.Unparen(be.Y).(*ast.Ident); ok && isNilId(be.X) {
+				eid = id
+			}
+			if eid == nil {
+				return nil, "", false
+			}
+			rr, isRet := ifs.Body.List[0].(*ast.ReturnStmt)
+			if !isRet || len(rr.Results) != 1 {
+				return nil, "", false
+			}
+			if id, ok := ast.Unparen(rr.Results[0]).(*ast.Ident); !ok || id.Name != eid.Name {
+				return nil, "", false
+			}
+			as, _ := ifs.Init.(*ast.AssignStmt)
+			return as, eid.Name, true
+		}
+		callOf := func(as *ast.AssignStmt, errName string) *ast.CallExpr {
+			if as == nil || len(as.Lhs) != 1 || len(as.Rhs) != 1 {
+				return nil
+			}
+			if id, ok := as.Lhs[0].(*ast.Ident); !ok || id.Name != errName {
+				return nil
+			}
+			c, _ := ast.Unparen(as.Rhs[0]).(*ast.CallExpr)
+			return c
+		}
+		if n >= 2 && (isNilId(r.Results[0]) || lastId != nil) {
+			if init, en, ok := guardOf(fd.Body.List[n-2]); ok && (isNilId(r.Results[0]) || lastId.Name == en) {
+				if init != nil {
+					if c := callOf(init, en); c != nil {
+						return c, fd.Body.List[:n-2]
+					}
+				} else if n >= 3 {
+					if as, ok := fd.Body.List[n-3].(*ast.AssignStmt); ok {
+						if c := callOf(as, en); c != nil {
+							return c, fd.Body.List[:n-3]
+						}
+					}
+				}
+			}
+			// err := <call>; return err
+			if lastId != nil && !isNilId(r.Results[0]) {
+				if as, ok := fd.Body.List[n-2].(*ast.AssignStmt); ok {
+					if c := callOf(as, lastId.Name); c != nil {
+						return c, fd.Body.List[:n-2]
+					}
+				}
+			}
+		}
 		return nil, nil
 	}
 	return call, fd.Body.List[:len(fd.Body.List)-1]
